@@ -270,7 +270,9 @@ def m_vec_clear(e, c, a): vec_of(a[0]).items[:] = []; return UNIT
 def m_vec_index(e, c, a):
     if type(unref(a[0])) is Str: return m_str_index(e, c, a)
     v = vec_of(a[0]); i = a[1]
-    if is_sym(i): i = e.concretize(i)
+    if is_sym(i):
+        if not e.branch(z3.ULT(i, z3.BitVecVal(len(v.items), i.size()))): raise Panic('index out of bounds')
+        i = e.concretize(i)
     if type(i) is Adt:      # ranges
         return Ref(Cell(slice_range(e, v, i)))
     if i >= len(v.items): raise Panic('index out of bounds')
@@ -292,7 +294,9 @@ def range_bounds(e, r, n):
     raise Unsupported('range ' + t)
 def m_vec_get(e, c, a):
     v = vec_of(a[0]); i = a[1]
-    if is_sym(i): i = e.concretize(i)
+    if is_sym(i):
+        if not e.branch(z3.ULT(i, z3.BitVecVal(len(v.items), i.size()))): return none()
+        i = e.concretize(i)
     if i < len(v.items): return some(Ref(v.items[i]))
     return none()
 def m_vec_first(e, c, a):
